@@ -48,6 +48,7 @@ class P(Profile):
     running_failure = ('CONTINUE', 'STOP_APPLICATION', 'RESTART_APPLICATION')
     wait_exit = 0.0
     sequences = (1, 1, 2, 3)
+    stop_sequences = (0, 0, 1, 2, 3)     # an explicit 0 is not "unset": it does not inherit the start_sequence
     unkillable = True
     default_behaviours = ('run', 'run', 'very_slow_stop', 'ignore_term')
     behaviours_max = 3
